@@ -523,6 +523,7 @@ type FuncSpec struct {
 	Panics   []*Clause // panics when <cond>
 	Lets     []*LetSpec
 	Pure     bool
+	PureArgs bool // result depends on the argument values only (not on the heap)
 	Inline   bool
 	Opaque   bool
 	Trusted  bool // contract assumed at call sites, body not verified (listed as assumption)
@@ -834,6 +835,9 @@ func parseContractFile(path, pkg string) (*ContractFile, error) {
 		case "pure":
 			if fn != nil {
 				fn.Pure = true
+				if strings.TrimSpace(rc.text) == "args" {
+					fn.PureArgs = true
+				}
 			} else if ext != nil {
 				ext.Pure = true
 			}
